@@ -32,18 +32,18 @@ Theorem parse_composed_length line info h body :
   no_lf line = true -> c_start PC line = SlOk info ->
   hdrs_ok h = true -> no_list_fields h = true -> h <> [] ->
   hget H_TE h = None -> hget H_CE h = None -> hget H_CL h = Some (dec_print (Composer.blen body)) ->
-  host_ok info h = true -> c_hdrs PC (p11 info) (delivered_hdrs h) = HOk ->
+  host_ok info h = true -> c_hdrs PC (p11 info) (delivered_hdrs h) = HOk -> connect_response PC k line = false ->
   N.of_nat (List.length (dec_of_N (N.of_nat (List.length body)))) <= INT_MAX_STR_DIGITS ->
   body_allowed info body = true ->
   parse L PC k init (line ++ CRLF ++ hcompose C h ++ body) =
     (init, [ {| m_line := line; m_hdrs := delivered_hdrs h; m_body := body |} ], None).
 Proof.
-  intros Hline Hstart Hok Hnl Hne Hte Hce Hcl Hhost Hhd Hdig Hbody.
+  intros Hline Hstart Hok Hnl Hne Hte Hce Hcl Hhost Hhd Hnc Hdig Hbody.
   destruct (composed_block C h HC Hok Hnl Hne) as [E1 [E2 [E3 [E4 E5]]]]. cbv zeta in *.
   set (block := join_with CRLF (map line_of (sort_items h))) in *.
   rewrite E1. replace (line ++ CRLF ++ (block ++ CRLF ++ CRLF) ++ body) with (line ++ CRLF ++ block ++ CRLF ++ CRLF ++ body ++ [])
     by (rewrite app_nil_r, <- !app_assoc; reflexivity).
-  rewrite (content_length_message_exact PC k line info block (delivered_hdrs h) body []); [reflexivity | | | | | | | | | | | | |].
+  rewrite (content_length_message_exact PC k line info block (delivered_hdrs h) body []); [reflexivity | | | | | | | | | | | | | |].
   - apply cut_CRLF_none, Hline.
   - exact Hstart.
   - exact E2.
@@ -53,6 +53,7 @@ Proof.
   - unfold host_ok in Hhost. destruct k; [|reflexivity]. change K_HOST with H_HOST. rewrite (hmem_delivered H_HOST h Hok).
     destruct (p11 info); [cbn [negb orb andb] in *; rewrite Hhost; reflexivity | reflexivity].
   - exact Hhd.
+  - exact Hnc.
   - change K_TE with H_TE. rewrite (hget_delivered H_TE h Hok), Hte. reflexivity.
   - change K_CE with H_CE. rewrite (hget_delivered H_CE h Hok), Hce. reflexivity.
   - change K_CL with H_CL. rewrite (hget_delivered H_CL h Hok), Hcl. cbn [option_map]. rewrite stripv_clean_digits, dec_print_dec_of_N. reflexivity.
@@ -71,11 +72,11 @@ Lemma headers_phase line info block h rest :
   block <> [] -> prefixb CRLF block = false -> cut (CRLF ++ CRLF) (block ++ CRLF) = None ->
   hparse [] block = Some h ->
   (match k with Server => p11 info && negb (hmem K_HOST h) | Client => false end) = false ->
-  c_hdrs PC (p11 info) h = HOk ->
+  c_hdrs PC (p11 info) h = HOk -> connect_response PC k line = false ->
   turn_of L PC k {| buf := line ++ CRLF ++ block ++ CRLF ++ CRLF ++ rest; cur := None |} =
   after_headers L PC k (after_hdrs line info h) rest.
 Proof.
-  intros Hline Hstart Hbne Hbpre Hbcut Hparse Hhost Hhdrs.
+  intros Hline Hstart Hbne Hbpre Hbcut Hparse Hhost Hhdrs Hnc.
   rewrite turn_of_eq. cbn [cur buf].
   unfold parse_startline. cbn [allow_lf reference andb].
   assert (Ecut : cut CRLF (line ++ CRLF ++ block ++ CRLF ++ CRLF ++ rest) = Some (line, block ++ CRLF ++ CRLF ++ rest)).
@@ -86,7 +87,7 @@ Proof.
   pose proof (prefixb_CRLF_block block (CRLF ++ rest) Hbne Hbpre) as Epre.
   rewrite Epre, (cut_CRLF2_none_app block rest Hbcut (or_intror I)).
   unfold parse_block. destruct block as [|c0 block]; [congruence|]. cbn [nonempty_b]. rewrite Hparse.
-  unfold on_headers_complete. cbn [i_hdrs set_phase set_hdrs i_info]. rewrite Hhost, Hhdrs.
+  unfold on_headers_complete. cbn [i_hdrs i_line set_phase set_hdrs i_info]. rewrite Hhost, Hhdrs, (hc_hdrs_plain PC k line h Hnc).
   reflexivity.
 Qed.
 
@@ -105,11 +106,11 @@ Theorem parse_composed_nobody line info h :
   no_lf line = true -> c_start PC line = SlOk info ->
   hdrs_ok h = true -> no_list_fields h = true -> h <> [] ->
   hget H_TE h = None -> hget H_CE h = None -> hget H_CL h = None ->
-  host_ok info h = true -> c_hdrs PC (p11 info) (delivered_hdrs h) = HOk ->
+  host_ok info h = true -> c_hdrs PC (p11 info) (delivered_hdrs h) = HOk -> connect_response PC k line = false ->
   parse L PC k init (line ++ CRLF ++ hcompose C h) =
     (init, [ {| m_line := line; m_hdrs := hset K_CL (dec_of_N 0) (delivered_hdrs h); m_body := [] |} ], None).
 Proof.
-  intros Hline Hstart Hok Hnl Hne Hte Hce Hcl Hhost Hhd.
+  intros Hline Hstart Hok Hnl Hne Hte Hce Hcl Hhost Hhd Hnc.
   destruct (composed_block C h HC Hok Hnl Hne) as [E1 [E2 [E3 [E4 E5]]]]. cbv zeta in *.
   set (block := join_with CRLF (map line_of (sort_items h))) in *.
   rewrite E1. replace (line ++ CRLF ++ block ++ CRLF ++ CRLF) with (line ++ CRLF ++ block ++ CRLF ++ CRLF ++ []) by (rewrite app_nil_r; reflexivity).
@@ -117,7 +118,7 @@ Proof.
   assert (Hh' : (match k with Server => p11 info && negb (hmem K_HOST (delivered_hdrs h)) | Client => false end) = false).
   { unfold host_ok in Hhost. destruct k; [|reflexivity]. change K_HOST with H_HOST. rewrite (hmem_delivered H_HOST h Hok).
     destruct (p11 info); [cbn [negb orb andb] in *; rewrite Hhost; reflexivity | reflexivity]. }
-  rewrite (headers_phase line info block (delivered_hdrs h) [] (cut_CRLF_none line Hline) Hstart E2 E3 E4 E5 Hh' Hhd).
+  rewrite (headers_phase line info block (delivered_hdrs h) [] (cut_CRLF_none line Hline) Hstart E2 E3 E4 E5 Hh' Hhd Hnc).
   rewrite after_headers_eq. unfold parse_body, after_hdrs. cbn [i_len i_chunked].
   unfold determine. cbn [i_hdrs i_info].
   assert (T : hget K_TE (delivered_hdrs h) = None) by (change K_TE with H_TE; rewrite (hget_delivered H_TE h Hok), Hte; reflexivity).
@@ -227,13 +228,13 @@ Theorem parse_composed_chunked line info h coded content :
    | Some ce => c_decode PC (stripv ce) (concat_bytes coded) = DcOk content
    | None => concat_bytes coded = content
    end) ->
-  host_ok info h = true -> c_hdrs PC (p11 info) (delivered_hdrs h) = HOk -> body_allowed info content = true ->
+  host_ok info h = true -> c_hdrs PC (p11 info) (delivered_hdrs h) = HOk -> connect_response PC k line = false -> body_allowed info content = true ->
   parse L PC k init (line ++ CRLF ++ hcompose C h ++ chunked_frame C [] coded) =
     (init, [ {| m_line := line;
                 m_hdrs := hdel K_TE (hset K_CL (dec_of_N (N.of_nat (List.length content))) (delivered_hdrs h));
                 m_body := content |} ], None).
 Proof.
-  intros Hline Hstart Hp11 Hok Hnl Hte Hcl Hdec Hhost Hhd Hbody.
+  intros Hline Hstart Hp11 Hok Hnl Hte Hcl Hdec Hhost Hhd Hnc Hbody.
   assert (Hne : h <> []) by (intros ->; discriminate).
   destruct (composed_block C h HC Hok Hnl Hne) as [E1 [E2 [E3 [E4 E5]]]]. cbv zeta in *.
   set (block := join_with CRLF (map line_of (sort_items h))) in *.
@@ -243,7 +244,7 @@ Proof.
   assert (Hh' : (match k with Server => p11 info && negb (hmem K_HOST (delivered_hdrs h)) | Client => false end) = false).
   { unfold host_ok in Hhost. destruct k; [|reflexivity]. change K_HOST with H_HOST. rewrite (hmem_delivered H_HOST h Hok).
     rewrite Hp11 in *. cbn [negb orb andb] in *. rewrite Hhost. reflexivity. }
-  rewrite (headers_phase line info block (delivered_hdrs h) wire (cut_CRLF_none line Hline) Hstart E2 E3 E4 E5 Hh' Hhd).
+  rewrite (headers_phase line info block (delivered_hdrs h) wire (cut_CRLF_none line Hline) Hstart E2 E3 E4 E5 Hh' Hhd Hnc).
   rewrite after_headers_eq. unfold parse_body, after_hdrs. cbn [i_len i_chunked].
   unfold determine. cbn [i_hdrs i_info].
   assert (T : hget K_TE (delivered_hdrs h) = Some TE_CHUNKED) by (change K_TE with H_TE; rewrite (hget_delivered H_TE h Hok), Hte; reflexivity).
@@ -302,12 +303,12 @@ Lemma composed_parse (k : kind) vc line info h b fr content :
   hframing h fr -> body_matches C vc false fr b ->
   (fr = FChunked -> p11 info = true) -> (fr <> FChunked -> hget H_CE h = None) ->
   decodes h (payload C vc b) content ->
-  host_ok k info h = true -> c_hdrs PC (p11 info) (delivered_hdrs h) = HOk -> body_allowed k info content = true ->
+  host_ok k info h = true -> c_hdrs PC (p11 info) (delivered_hdrs h) = HOk -> connect_response PC k line = false -> body_allowed k info content = true ->
   N.of_nat (List.length (dec_of_N (N.of_nat (List.length content)))) <= INT_MAX_STR_DIGITS ->
   parse L PC k init (line ++ CRLF ++ hcompose C h ++ body_octets C vc b) =
     (init, [ {| m_line := line; m_hdrs := delivered_for fr h content; m_body := content |} ], None).
 Proof.
-  intros Hline Hstart Hok Hnl Hne Htr Hf Hb Hp11 Hce Hdec Hhost Hhd Hbody Hdig.
+  intros Hline Hstart Hok Hnl Hne Htr Hf Hb Hp11 Hce Hdec Hhost Hhd Hnc Hbody Hdig.
   unfold body_octets. rewrite body_iter_spec. cbn [fst]. unfold body_matches in Hb. unfold decodes in Hdec.
   destruct Hf as [Ht Hc | n Ht Hc | Ht Hc]; cbn [delivered_for].
   - rewrite Hb, Htr. apply (parse_composed_chunked C PC k HC line info h (coded C vc b) content); try assumption.
@@ -349,7 +350,7 @@ Proof.
     assert (X : hmem H_ACCEPT (q_hfinal now q) = true) by (unfold q_hfinal, q_step_tail; apply hmem_hsetdefault). rewrite E in X. discriminate. }
   unfold q_compose. rewrite body_iter_spec. cbn [fst]. rewrite Em, Et, Ev, req_line_shape. fold line. rewrite <- (app_assoc line CRLF).
   pose proof (composed_parse Server vc line info (q_hdrs q') (q_body q') fr content L2 Hstart Hh Hnl Hne) as P.
-  unfold body_octets in P. rewrite body_iter_spec in P. cbn [fst] in P. apply P; try assumption.
+  unfold body_octets in P. rewrite body_iter_spec in P. cbn [fst] in P. apply P; try assumption; try reflexivity.
   - intros ->. apply Hp11. inversion Hf as [Ht _ | |]. rewrite hmem_hget, Ht. reflexivity.
   - intros Hne'. apply Hce. destruct Hf as [Ht _ | n Ht _ | Ht _]; [congruence | |]; rewrite hmem_hget, Ht; reflexivity.
   - rewrite Epl. exact Hdec.
@@ -364,12 +365,13 @@ Theorem response_roundtrip v29 vc now r r' info content :
   (hmem H_TE (r_hdrs r') = true -> p11 info = true) -> (hmem H_TE (r_hdrs r') = false -> hget H_CE (r_hdrs r') = None) ->
   decodes (r_hdrs r') (concat_bytes (encode_pieces C vc (b_codec (r_body r')) (r_sent_pieces r))) content ->
   c_hdrs PC (p11 info) (delivered_hdrs (r_hdrs r')) = HOk ->
+  c_connect PC line = false ->     (* the request this client machine answers is not a CONNECT (then the framing fields would be dropped) *)
   N.of_nat (List.length (dec_of_N (N.of_nat (List.length content)))) <= INT_MAX_STR_DIGITS ->
   exists fr, hframing (r_hdrs r') fr /\
     parse L PC Client init (fst (r_compose C vc r')) =
       (init, [ {| m_line := line; m_hdrs := delivered_for fr (r_hdrs r') content; m_body := content |} ], None).
 Proof.
-  intros Hok Hnow Hp Hbl Hnl Htr line Hstart Hp11 Hce Hdec Hhd Hdig.
+  intros Hok Hnow Hp Hbl Hnl Htr line Hstart Hp11 Hce Hdec Hhd Hnc Hdig.
   destruct (r_prepare_framed C v29 vc now r r' Hok Hnow Hp) as [Ev [Ec [Er [Em [Hh [Htr' [Hso [Hpi [fr [Hf [Hb1 _]]]]]]]]]]]. cbv zeta in Hb1.
   destruct (Hb1 Hbl) as [Hb [_ Hnn]].
   pose proof Hok as Hok'. unfold resp_ok in Hok'.
